@@ -89,7 +89,7 @@ def claim_plan_window_data(sig, ctx) -> bool:
         return False
     at = ctx.get("at", 0)
     prog = ctx["program"]
-    if ctx["formula"] == "C01_StrictOutcome":
+    if ctx["formula"] in ("C01_StrictOutcome", "C01_SameOutcome", "C10_SweepHarmless"):
         # the outcome form of the same window: the crash fell between the claim and the plan of a stage whose builder
         # adds before-children - they are never created, the stage ends differently from the uninterrupted run
         for e in tr["events"]:
@@ -99,9 +99,9 @@ def claim_plan_window_data(sig, ctx) -> bool:
             for sd in prog["stages"]:
                 row = s["st"].get(sd["ref"])
                 kids = [k["ref"] for k in prog["stages"] if k["parent"] == sd["ref"]]
-                if row and row["status"] == "RUNNING" and row["started"] and kids and not any(k in s["st"] for k in kids) and \
+                if row and row["status"] == "RUNNING" and row["started"] and kids and not all(k in s["st"] for k in kids) and \
                         all(s["tk"].get(t["name"], {}).get("status") == "NOT_STARTED" for t in sd["tasks"]):
-                    return True
+                    return True       # (killed before the last of the builder's children was inserted)
         return False
     ev = tr["events"][at - 1] if 0 < at <= len(tr["events"]) else None
     if not ev or ev.get("e") != "exec":
